@@ -227,3 +227,25 @@ func VerifHarness_C02_FetchShadow() {
 	}
 	vsymReach("C02_fetch_shadow")
 }
+
+// C18-O5: a container whose Docker label keys collide after sanitising
+// (a.b and a-b both become a_b).  Which value the name a_b gets is a choice,
+// but it must be the same choice every time: the labels of a container, and
+// therefore which selectors pick it, do not depend on map iteration order.
+func VerifHarness_C18_CollidingDockerLabels_MapOrder() {
+	ctr := types.Container{ID: "id0", Names: []string{"/c0"}, Image: "img", State: "running",
+		Labels: map[string]string{"a.b": "1", "a-b": "2", "a/b": "3"}}
+	vsymMapOrderAll()
+	l1 := getLabels(ctr)
+	l2 := getLabels(ctr)
+	vsymMapOrderDefault()
+	v1, ok1 := l1.labels["a_b"]
+	v2, ok2 := l2.labels["a_b"]
+	vsymAssert(ok1 && ok2, "the sanitised name carries one of the values")
+	if v1 != v2 {
+		vsymFinding("F23", true, "[maporder] a container whose Docker label keys collide after sanitising (a.b, a-b -> a_b) gets the value of whichever key the map iteration visits last: its labels, and which selectors pick it, change from run to run")
+		return
+	}
+	vsymAssert(v1 == v2, "[maporder] the labels of a container do not depend on map iteration order")
+	vsymReach("C18_colliding_labels")
+}
